@@ -77,8 +77,8 @@ def run(tier, seed, drv):
                     res.diverge(f"model: nested and flattened runs differ ({rep_n.get('err')}, {rep_f.get('err')})", case)
                 res.count("model-nested-vs-flat")
             SC.check_run(scn, rn, drv, res, monitors_on=("inputs_latest", "callbacks", "tick_times", "system_output") + (("interrupts",) if scn.get("stims") else ()),
-                         corr=("ticker",) if has_cost else ("sim", "ticker"), case_extra=case)
-            SC.check_run(flat, rf, drv, res, monitors_on=(), corr=() if has_cost else ("sim",), case_extra={"scenario": flat, "bus": b})
+                         corr=("ticker",) if has_cost else ("inputs", "ticks", "ticker"), case_extra=case)
+            SC.check_run(flat, rf, drv, res, monitors_on=(), corr=() if has_cost else ("inputs", "ticks"), case_extra={"scenario": flat, "bus": b})
             # an interrupt that arrives while a tick is in progress may be served by that very tick in one
             # configuration and by a tick of its own in the other (the devices are updated in a different
             # order inside the tick): transparency is claimed for stimuli applied between ticks
